@@ -9,7 +9,7 @@ import collections
 
 from hypothesis import strategies as st
 
-from vlib import cmap_text, gen_maps, pipeline
+from vlib import scale, cmap_text, gen_maps, pipeline
 from vlib.core import Sub, req
 
 PROPERTY = "C10"
@@ -134,6 +134,25 @@ def check(case):
     return {"nontrivial": bool(second and has_rec and changed_neighbours), "classes": cl}
 
 
+def check_many(case):
+    """hundreds of query molecules: the records of a few of them (the last ones in the file among them) must be those of a
+    run restricted to them with -qId and of a run on a query file physically restricted to them"""
+    full = pipeline.run_case(case, record=False)
+    if full.crashed:
+        return {"nontrivial": False, "classes": ["pipeline-crash:" + full.crash_signature]}
+    sel = case["select"]
+    a = pipeline.run_case(dict(case, args=dict(case.get("args") or {}, **{"-qId": sel})), record=False)
+    b = pipeline.run_case(dict(case, queries=[q for q in case["queries"] if q["id"] in sel]), record=False)
+    req(not a.crashed and not b.crashed, "transformed-run-crashes", f"restricted run aborts: {a.crash_text or b.crash_text}")
+    fpq = per_query(full)
+    compare(fpq, b, [str(i) for i in sel], f"{len(case['queries'])} queries in the file vs a file with queries {sel} only")
+    for suf in a.files:
+        la, lb = [x["line"] for x in a.files[suf]], [x["line"] for x in b.files[suf]]
+        req(la == lb, "id-filter-differs-from-restricted-files", f"-qId {sel} on a file of {len(case['queries'])} queries: file {suf} differs from the run on the restricted file")
+    n = sum(len(v) for v in full.files.values())
+    return {"nontrivial": n >= 257, "classes": [f"mode={full.mode}", f"queries>={256 if len(case['queries']) > 256 else 0}"]}
+
+
 def _perm(n, mul, add):
     from math import gcd
     if n > 1 and gcd(mul, n) == 1:
@@ -173,4 +192,6 @@ def strategy(draw):
 def subchecks(tier):
     q = tier == "quick"
     return [Sub("transformations", "hyp", check, strategy=strategy, examples=260 if q else 6000, shrink_budget=40,
-                sample_filter=gen_maps.short_case, required_classes=("second-pass", "ghost-ids", "reference-subset"))]
+                sample_filter=gen_maps.short_case, required_classes=("second-pass", "ghost-ids", "reference-subset")),
+            Sub("many-queries", "hyp", check_many, strategy=scale.many_queries_case, examples=2 if q else 48, shrink_budget=0, shards=2 if q else 16,
+                sample_filter=scale.short, describe="257-385 query molecules in one run vs runs restricted to a few of them")]
